@@ -197,6 +197,9 @@ let handle (toks: string list) : string =
       id ^ " " ^ hex_of_bytes e ^ ". " ^ string_of_int (List.length b - List.length rest) ^ " " ^ hex_of_bytes (unesc true true O e) ^ "."
   | "unesc" :: id :: inv :: caps :: hex :: [] ->
       id ^ " " ^ hex_of_bytes (unesc (inv = "1") (caps = "1") O (hexarg hex)) ^ "."
+  | "mfmt" :: id :: w1 :: w2 :: w3 :: cols :: [] ->
+      let cl = List.map (fun h -> hexarg (if h = "" then "-" else h)) (String.split_on_char '|' cols) in
+      id ^ " " ^ hex_of_bytes (fmt_line [nat_of_int (int_of_string w1); nat_of_int (int_of_string w2); nat_of_int (int_of_string w3)] cl) ^ "."
   | "menc" :: id :: hex :: [] -> id ^ " " ^ hex_of_bytes (m_enc_line (hexarg hex)) ^ "."
   | "mdec" :: id :: hex :: [] ->
       let rec go bs acc = (match bs with
